@@ -289,22 +289,42 @@ impl FinalityTracker {
 
     /// Handles the indirect finalization of the given block.
     ///
-    /// Recurses through ancestors, potentially implicitly finalizing them as well.
+    /// Walks through ancestors, potentially implicitly finalizing them as well.
+    /// The walk is a loop, not a recursion: the chain of undecided ancestors
+    /// can be thousands of blocks long, e.g. when catching up after a partition.
     ///
     /// Updates the `event` all along the way with:
     /// - Any potentially implicitly finalized blocks, and
     /// - any implicitly skipped slots.
     fn handle_implicitly_finalized(
         &mut self,
-        source_slot: Slot,
-        implicitly_finalized: BlockId,
+        mut source_slot: Slot,
+        mut implicitly_finalized: BlockId,
         event: &mut FinalizationEvent,
     ) {
+        while let Some(parent) =
+            self.mark_implicitly_finalized(source_slot, &implicitly_finalized, event)
+        {
+            source_slot = implicitly_finalized.0;
+            implicitly_finalized = parent;
+        }
+    }
+
+    /// Handles one step of [`Self::handle_implicitly_finalized`].
+    ///
+    /// Returns the parent to continue the walk with, if it is known.
+    /// Returns `None` if the walk ends here.
+    fn mark_implicitly_finalized(
+        &mut self,
+        source_slot: Slot,
+        implicitly_finalized: &BlockId,
+        event: &mut FinalizationEvent,
+    ) -> Option<BlockId> {
         assert!(source_slot > implicitly_finalized.0);
         // parent slot may already be decided and pruned;
         // consider a call to `add_parent` for the `first_unpruned_slot`
         if implicitly_finalized.0 < self.first_unpruned_slot {
-            return;
+            return None;
         }
 
         // implicitly skip slots in between
@@ -318,7 +338,7 @@ impl FinalityTracker {
             if let Some(status) = old {
                 match status {
                     FinalizationStatus::ImplicitlySkipped => {
-                        return;
+                        return None;
                     }
                     FinalizationStatus::Notarized(_) => {}
                     FinalizationStatus::FinalPendingNotar
@@ -343,7 +363,7 @@ impl FinalityTracker {
                 | FinalizationStatus::ImplicitlyFinalized(hash) => {
                     assert_eq!(hash, &block_hash, "consensus safety violation");
                     self.status.insert(slot, status);
-                    return;
+                    return None;
                 }
                 // NOTE: The notarized block may be a sibling of the implicitly finalized one,
                 //       only direct finalization excludes other notarized blocks in the slot.
@@ -357,10 +377,8 @@ impl FinalityTracker {
             .implicitly_finalized
             .push(implicitly_finalized.clone());
 
-        // recurse through ancestors
-        if let Some(parent) = self.parents.get(&implicitly_finalized).cloned() {
-            self.handle_implicitly_finalized(implicitly_finalized.0, parent, event);
-        }
+        // continue with the parent
+        self.parents.get(implicitly_finalized).cloned()
     }
 
     /// Clears all state that is no longer needed.
@@ -636,5 +654,28 @@ mod tests {
         // late parent edge must NOT re-finalize (already-pruned) slot 1
         let event = tracker.add_parent((slot2, hash2), (slot1, hash1));
         assert_eq!(event, FinalizationEvent::default());
+    }
+
+    #[test]
+    fn long_chain_of_undecided_ancestors() {
+        // a finalization may resolve a very long chain at once, e.g. after a partition;
+        // the ancestor walk must not be bounded by the stack of the calling thread
+        const CHAIN_LEN: u64 = 50_000;
+        let mut tracker = FinalityTracker::default();
+        let mut parent = genesis_block_id();
+        for slot in 1..=CHAIN_LEN {
+            let block = random_block_id(Slot::new(slot));
+            let event = tracker.add_parent(block.clone(), parent);
+            assert_eq!(event, FinalizationEvent::default());
+            parent = block;
+        }
+        let top = parent;
+
+        let event = tracker.mark_fast_finalized(top.clone());
+        assert_eq!(event.finalized, Some(top.clone()));
+        // all ancestors, including the genesis block
+        assert_eq!(event.implicitly_finalized.len() as u64, CHAIN_LEN);
+        assert_eq!(event.implicitly_skipped, vec![]);
+        assert_eq!(tracker.first_unpruned_slot(), top.0);
     }
 }
